@@ -15,8 +15,6 @@
 package validate
 
 import (
-	"bytes"
-	"encoding/gob"
 	"encoding/json"
 	"fmt"
 	"sort"
@@ -859,13 +857,14 @@ func (s *SpecValidator) canValidateAgainst(schema *spec.Schema) bool {
 }
 
 func deepCloneSchema(src spec.Schema) (spec.Schema, error) {
-	var b bytes.Buffer
-	if err := gob.NewEncoder(&b).Encode(src); err != nil {
+	// a JSON round trip: unlike gob, it keeps pointers to zero values ("minimum": 0, "maxLength": 0, "additionalProperties": false)
+	b, err := json.Marshal(src)
+	if err != nil {
 		return spec.Schema{}, err
 	}
 
 	var dst spec.Schema
-	if err := gob.NewDecoder(&b).Decode(&dst); err != nil {
+	if err := json.Unmarshal(b, &dst); err != nil {
 		return spec.Schema{}, err
 	}
 
